@@ -107,6 +107,9 @@ fn faulted_run(initial: &std::sync::Arc<Image>, part: usize, cfg: &HistCfg, ops:
     let mut open_files_at_fault: Vec<String> = Vec::new();
     let mut open_names: HashMap<usize, String> = HashMap::new();
     let mut read_off: Option<u32> = None;
+    // a close_volume that met a fault may or may not have released the volume (close_file does
+    // release its handle on error; either policy keeps the API usable)
+    let mut closevol_faulted = false;
     for (i, op) in ops.iter().enumerate() {
         let fired_before = ex.disk.with(|s| s.fired.len());
         // which op will receive a one-shot fault is not known in advance under a class filter, so
@@ -144,6 +147,9 @@ fn faulted_run(initial: &std::sync::Arc<Image>, part: usize, cfg: &HistCfg, ops:
                 }
             }
             _ => {}
+        }
+        if hit && matches!(op, Op::CloseVol { .. }) && !res.is_ok() {
+            closevol_faulted = true;
         }
         if ex.disk.with(|s| s.budget_hit) {
             rep.violate(v("C11.hang", op.kind(), "device-call budget exceeded", format!("{} issued more than {} device calls after {}", op.describe(), nblocks_budget, plan.label), mk_case(i)));
@@ -302,6 +308,31 @@ fn faulted_run(initial: &std::sync::Arc<Image>, part: usize, cfg: &HistCfg, ops:
             return false;
         }
     }
+    // a `Volume` wrapper whose close() (or drop) met the fault is gone - the caller holds nothing it
+    // could close again - so the volume must be free to be opened afresh
+    if single {
+        if let Op::CloseVol { fl: Fl::Wrap | Fl::Io, vs } | Op::DropVol { vs } = &ops[fi] {
+            let part_of = ops[..fi].iter().rev().find_map(|o| match o {
+                Op::OpenVol { part, vs: v2, .. } if v2 == vs => Some(*part),
+                _ => None,
+            });
+            if let (Some(p), Some(h)) = (part_of, ex.vols.get(*vs).cloned().flatten()) {
+                let r = report::catch(|| ex.vm.open_volume(Fl::Raw, p).map_err(|e| crate::vm::ek(&e)));
+                rep.count("reopen_after_failed_wrapper_close", 1);
+                match r {
+                    Ok(Ok(nv)) => {
+                        let _ = ex.vm.close_volume(Fl::Raw, nv);
+                        ex.vols[*vs] = None;
+                        let _ = h;
+                    }
+                    other => {
+                        rep.violate(v("C11.handle-wedged", ops[fi].kind(), "volume cannot be opened again", format!("{} met the fault ({}); the wrapper is consumed, and opening the volume again gives {:?}", ops[fi].describe(), plan.label, other), mk_case(fi)));
+                        return false;
+                    }
+                }
+            }
+        }
+    }
     let mut vols: Vec<embedded_sdmmc::RawVolume> = ex.vols.iter().flatten().cloned().collect();
     vols.extend(ex.displaced_vols.iter().cloned());
     // a `drop(Volume)` earlier in the history may already have closed a volume (Drop = close
@@ -309,7 +340,7 @@ fn faulted_run(initial: &std::sync::Arc<Image>, part: usize, cfg: &HistCfg, ops:
     let dropped_any = ops.iter().any(|o| matches!(o, Op::DropVol { .. }));
     for vh in vols {
         let r = report::catch(|| ex.vm.close_volume(Fl::Raw, vh).map_err(|e| crate::vm::ek(&e)));
-        if dropped_any && matches!(r, Ok(Err(Ek::BadHandle))) {
+        if (dropped_any || closevol_faulted) && matches!(r, Ok(Err(Ek::BadHandle))) {
             continue;
         }
         if !matches!(r, Ok(Ok(()))) {
